@@ -1,5 +1,7 @@
 package corr
 
+import "reflect"
+
 func init() {
 	Runners["C19"] = runC19
 }
@@ -17,6 +19,22 @@ func runC19(p *Plan) {
 				OpAssign(p.Out, dk, old, src, modes[r.Intn(3)])
 				p.Out.Count("dst:" + dk)
 				p.Out.Count("srcform:" + src.Form)
+			}
+		}
+		// every text of the corpus into every destination kind, as a string and as bytes
+		for ti, txt := range assignTexts {
+			for _, sk := range []string{"string", "[]byte"} {
+				if p.Tier == "quick" && (ti+len(dk))%2 == 0 && sk == "[]byte" {
+					continue
+				}
+				v := reflect.New(kindTypes[sk]).Elem()
+				if sk == "string" {
+					v.SetString(txt)
+				} else {
+					v.SetBytes([]byte(txt))
+				}
+				OpAssign(p.Out, dk, GenSrc(r, dk).V, SrcSpec{Kind: sk, Form: []string{"v", "p"}[r.Intn(2)], V: v}, modes[r.Intn(3)])
+				p.Out.Count("text-sweep")
 			}
 		}
 		for i := 0; i < 3; i++ {
